@@ -180,6 +180,13 @@ def driver_factory(cfg):
         pt.join()
         s.settle()
         ep.pump()
+        # every transaction of this side is over (answered, or timed out): the peer's own transaction counter is independent, so it may
+        # use the same system bytes for primaries of its own - "every other inbound data message is handed to the application"
+        obs["reuse"] = [r["system"] for r in obs["wire_requests"]]
+        for k, sysb in enumerate(obs["reuse"]):
+            ep.conn.peer_send(e37.data(9, 1, False, sysb, e5.enc(("B", bytes([0xE0 + k] * 10)))))
+        s.settle()
+        ep.pump()
         obs["threads_alive"] = sorted(t.name.split("_")[2] if t.name.startswith("secsgem_HSMS") else t.name
                                       for t in s.threads if t.state != vrt.DONE and t is not s.current)
 
@@ -335,7 +342,12 @@ def oracle(obs, cfg, sched):
     enters = [e for e in obs["cb"] if e[0] == "enter" and e[3] == 9]
     seq = [e[1] for e in enters]
     want = [0x60000 + k for k in range(cfg.get("unsolicited", 2))]
-    if sorted(seq) != sorted(want):
+    if len(set(systems)) == len(systems):
+        want += obs.get("reuse", [])
+    if sorted(seq) != sorted(want) and sorted(x for x in seq if x >= 0x60000) == sorted(x for x in want if x >= 0x60000):
+        out.append(("C06|primary-reusing-system-bytes-of-a-finished-request-not-delivered-once", {"got": seq, "want": want,
+                                                                                                  "finished": obs.get("replied"), "never": obs.get("never")}))
+    elif sorted(seq) != sorted(want):
         out.append((f"C06|unsolicited-delivery-count|got={len(seq)}|want={len(want)}", {"got": seq, "want": want}))
     elif seq != want:
         out.append(("C06|unsolicited-delivered-out-of-order", {"got": seq, "want": want}))
